@@ -33,6 +33,70 @@ CHECKS = {
             "instruction, operand and register-family captures (all widths, prefix/extension operand chains, later uses in "
             "$or/$not/times) executed on the code and validated by TLC.",
             "TLA+ spec (capture environments, register tables) + TLC substitution law; universe replay; TLC trace validation"),
+    "C06": ("model_checking", "7 C06",
+            "MC_C06 (C06_Agree): the compiled-side $deref semantics on the normaliser's text holds iff pattern and operand have "
+            "the same present components; the universe of $deref patterns x AT&T operands (same shape, every one-component "
+            "mutation, other shapes, register, immediate) is printed by TLC as objdump text and run end to end through the real "
+            "parser and matcher; TLC validates.",
+            "TLA+ spec (ParseMem/MDeref + JasmObjdump NormText) + TLC; end-to-end replay from objdump text; TLC trace validation"),
+    "C08": ("model_checking", "7 C08",
+            "MC_Objdump: generator and recogniser of the objdump grammar agree; every abstract listing over every line kind is "
+            "printed by TLC and parsed by the real code (stream must be Encode(Stream(listing))); real objdump output of random "
+            "bytes (seeded; sampling, not enumeration) is parsed in chunks and TLC validates one stream instruction per "
+            "instruction line with that line's address and mnemonic, and that the parser never fails.",
+            "TLA+ spec (JasmObjdump Stream/ParseLine) + TLC; printed listings replayed; real objdump traces validated by TLC"),
+    "C09": ("model_checking", "7 C09",
+            "Every operand form of C09 over all general-purpose registers and widths, scales, displacements and 0-3 operand mixes "
+            "printed by TLC and parsed by the code; assembled AT&T templates disassembled by the real objdump; TLC validates the "
+            "normal form (NormText / NormOfText) and operand count/order.",
+            "TLA+ spec (NormText, NormOfText, SplitOps) + TLC; replay + real as/objdump traces validated by TLC"),
+    "C10": ("model_checking", "4.1, 7 C10",
+            "MC_Encode: Decode(Encode(L)) = L and injectivity for separator-free fields (control config without the premise must "
+            "fail); every stream observed from printed listings and from real objdump output is decoded BY TLC, re-encoded and "
+            "compared, and every field is checked to be separator-free.",
+            "TLA+ spec (Encode/Decode/FieldOK) model-checked by TLC incl. negative control; code streams validated by TLC"),
+    "C13": ("model_checking", "4.5, 7 C13",
+            "For every rule document of the universe (every sequence of macro uses in the supported forms x every split of the "
+            "definitions between rule file and extra macro files) TLC computes the manually inlined document (InlineRef); the "
+            "real code compiles both; equal matcher text or, failing that, equal behaviour on a listing universe is required.",
+            "TLA+ spec (JasmMacro InlineRef over Doc trees) + TLC; both documents compiled by the code; TLC trace validation"),
+    "C14": ("model_checking", "4.6, 7 C14",
+            "JasmSession (process-global configuration written by Construct, read by Match) model-checked with Atomic = TRUE; "
+            "control with Atomic = FALSE must fail; every history of <= MaxOps complete operations over 9 rule documents is "
+            "replayed in one real process, each operation compared with the same operation in a fresh process, and every "
+            "history trace is validated by TLC against JasmSession's actions (Trace_Session).",
+            "TLA+ state machine JasmSession + TLC; all histories replayed in real processes; TLC trace validation"),
+    "C15": ("model_checking", "4.6, 7 C15",
+            "JasmBinary (Argv, abstract Objdump) model-checked; for assembled objects x every sections list of the spec's "
+            "universe, JASM's binary route (argv recorded by a PATH shim) is compared by TLC with the text route on the output "
+            "of the command line the specification prescribes: argv, failure parity, stream, results.",
+            "TLA+ spec (JasmBinary Argv/Objdump) + TLC; real objdump on both routes; TLC trace validation"),
+    "C16": ("model_checking", "4.2, 7 C16",
+            "MC_C16: action property `a presentation edit leaves Stream unchanged' over every sequence of <= MaxEdits edits; "
+            "every reachable state is printed by TLC, parsed by the real code and validated (stream and rule results); real "
+            "objdump printings of one object under different options must give one stream.",
+            "TLA+ state machine of presentation edits, action property checked by TLC; reachable states replayed; TLC validation"),
+    "C17": ("fault_enumeration", "7 C17",
+            "JasmOperation (pipeline stages with fault injection) model-checked (C17_Loud, FaultEnds); every fault kind of the "
+            "spec is realised in every listed concrete way, injected alone into a valid pair whose fault-free verdict is "
+            "'found', in assembly and binary mode; TLC validates the terminal outcome.",
+            "TLA+ spec of the operation pipeline with faults + TLC; single-fault enumeration on the real code; TLC validation"),
+    "C18": ("model_checking", "7 C18",
+            "MC_C18: the digit-sequence order HexLE equals the arithmetic order for all numerals up to MaxDigits digits in "
+            "every spelling; the canonical tagging is an allowed tagging; ranges (min = max, 0x / case / leading zeros) x "
+            "targets at and around both bounds and with other digit counts x direct / conditional / indirect branches and "
+            "non-branches run on the code; TLC validates the observed stream (AllowedTagging) and the matches.",
+            "TLA+ spec (JasmObserve ValidAddr, HexLE) + TLC; universe replay; TLC trace validation"),
+    "C19": ("model_checking", "4.5, 7 C19",
+            "For every position a reference can occupy x list macro / string macro / undefined name, TLC decides from the "
+            "specification (Unresolved after InlineRef, BadMacroNames) whether compilation must fail and which names the error "
+            "must mention; the real compiler's outcome, error text and matcher text are validated by TLC.",
+            "TLA+ spec (JasmMacro Unresolved/MustFail) + TLC; documents compiled by the code; TLC trace validation"),
+    "C20": ("model_checking", "4.6, 7 C20",
+            "The full cross product of command-line options of spec/JasmCLI.tla is run as real processes; the library API on "
+            "the same inputs is the oracle; TLC validates usage errors, exit status, the verdict line and one address line per "
+            "element in order (Conforms).",
+            "TLA+ spec (JasmCLI UsageError/ExpectedLines) + TLC; real CLI processes; TLC trace validation"),
     "C07": ("model_checking", "7 C07",
             "Every reported text must be string-equal to whole records of the stream TLC validated (C07_Aligned), every address "
             "must be the first covered instruction's (C07_Addr); every operator in leading position, items with fewer/equal/more "
